@@ -61,5 +61,4 @@ def bulk(ctx, rounds):
 
 
 def replay(ctx, rp):
-    log("replay: re-run the check: ./check C12")
-    return 2
+    return vlib.replay_any(ctx, rp)
